@@ -2,7 +2,7 @@
 import srvprops
 
 PROP = "C02"
-THEOREMS = ["C02_complete_exactly_once", "C02_complete_whole_step", "C02_each_connection_once", "C02_router_wellformed", "C02_source_no_lossy_map_lookup"]
+THEOREMS = ["C02_complete_exactly_once", "C02_complete_whole_step", "C02_each_connection_once", "C02_router_wellformed", "C02_source_no_lossy_map_lookup", "C02_source_segment_layout", "C02_conc_broadcast_complete"]
 
 
 import serverlib as sl
